@@ -140,6 +140,7 @@ class World:
                         log.add(k="actor_cleanup", id=id_, attempt=attempt, actor=name)
                         await asyncio.sleep(st.get("cleanup", 0.5))
                         raise
+                    log.add(k="actor_end", id=id_, attempt=attempt, actor=name)
                     return None
                 if do == "raise":
                     log.add(k="actor_raise", id=id_, attempt=attempt, actor=name, exc=st.get("exc", "ValueError"))
